@@ -283,7 +283,69 @@ fn sweep(run: &Run) {
     );
 }
 
+/// Fixed layouts: ALL key sequences of length <= 3 over a 20-symbol alphabet of the synthetic layout, each
+/// typed into a method object that has never composed anything (update-engine to another layout and back
+/// creates one), suggestions on, x 16 settings of {old vowel-sign order, auto vowel, traditional joining,
+/// old reph}.  Every returned suggestion gets the full C02 read-out with the suggestions-off twin.
+fn fixed_short_sequences(run: &Run) {
+    use crate::driver::{layout_inverse, Layout};
+    let inv = layout_inverse(Layout::Synthetic);
+    let vals = [
+        "\u{09B0}", "\u{0995}", "\u{0985}", "\u{0987}", "\u{09BE}", "\u{09BF}", "\u{09C7}", "\u{09C1}", "\u{09CC}", "\u{09CD}", "\u{0981}", "\u{09D7}", "!", "\u{09E7}",
+        "\u{0982}", "\u{200C}", model::ZOFOLA, model::ROFOLA, model::REPH, "'",
+    ];
+    let ks: Vec<(u16, u8)> = vals.iter().map(|v| *inv.get(*v).unwrap_or_else(|| panic!("synthetic layout lacks {v:?}"))).collect();
+    let n = ks.len();
+    let mut items = vec![];
+    for bits in 0..16u32 {
+        for first in 0..n {
+            items.push((bits, first));
+        }
+    }
+    run.exhaustive(
+        "fixed-short-sequences-from-a-fresh-method",
+        &items,
+        |_| (Sandbox::new(), Sandbox::new()),
+        |&(bits, first), st, (sb, sb2)| {
+            let mut opts = Opts::parse("Sfe");
+            opts.karorder = bits & 1 != 0;
+            opts.vowel = bits & 2 != 0;
+            opts.kar = bits & 4 != 0;
+            opts.reph = bits & 8 != 0;
+            let mut other = opts;
+            other.layout = Layout::Probhat;
+            let mut ctx = Ctx::new(opts, sb).map_err(|p| Failure::new(panic_kind(&p), p.to_string(), json!({})))?;
+            let mut to = opts;
+            to.fsug = false;
+            to.nodata = true;
+            let twin = Ctx::new(to, sb2).map_err(|p| Failure::new(panic_kind(&p), p.to_string(), json!({})))?;
+            for code in 0..(n * n + n + 1) {
+                // sequences: [first], [first, a], [first, a, b]
+                let seq: Vec<usize> = if code == 0 { vec![first] } else if code <= n { vec![first, code - 1] } else { vec![first, (code - n - 1) / n, (code - n - 1) % n] };
+                let case = || json!({"opts": opts.letters(), "fresh_method_sequence": seq.iter().map(|i| vals[*i]).collect::<Vec<_>>()});
+                let pf = |p: crate::driver::PanicInfo| Failure::new(panic_kind(&p), p.to_string(), case());
+                ctx.update(other, sb).map_err(pf)?;
+                ctx.update(opts, sb).map_err(pf)?;
+                twin.finish().map_err(pf)?;
+                for i in &seq {
+                    let (c, m) = ks[*i];
+                    let r = ctx.key(c, m, 0).map_err(pf)?;
+                    let t = twin.key(c, m, 0).map_err(pf)?;
+                    st.evals(1);
+                    check_suggestion(run, st, &r, &opts, None, 0, Some(&t.text), &case)?;
+                }
+                let back = ctx.backspace(false).map_err(pf)?;
+                let tb = twin.backspace(false).map_err(pf)?;
+                check_suggestion(run, st, &back, &opts, None, 0, if back.lonely { None } else { Some(&tb.text) }, &case)?;
+            }
+            st.label("fresh-method-sequences");
+            Ok(())
+        },
+    );
+}
+
 pub fn run(run: &Run) {
+    fixed_short_sequences(run);
     sweep(run);
     let (shards, cases) = match run.tier {
         Tier::Quick => (16, 600),
@@ -305,6 +367,29 @@ pub fn run(run: &Run) {
 pub fn replay(run: &Run, case: &Value) -> Result<(), Failure> {
     let mut st = Stats::new();
     let opts = Opts::parse(case["opts"].as_str().unwrap_or_default());
+    if let Some(seq) = case["fresh_method_sequence"].as_array() {
+        use crate::driver::{layout_inverse, Layout};
+        let inv = layout_inverse(Layout::Synthetic);
+        let (sb, sb2) = (Sandbox::new(), Sandbox::new());
+        let mut other = opts;
+        other.layout = Layout::Probhat;
+        let mut ctx = Ctx::new(opts, &sb).map_err(|p| Failure::new(panic_kind(&p), p.to_string(), case.clone()))?;
+        let mut to = opts;
+        to.fsug = false;
+        to.nodata = true;
+        let twin = Ctx::new(to, &sb2).map_err(|p| Failure::new(panic_kind(&p), p.to_string(), case.clone()))?;
+        let pf = |p: crate::driver::PanicInfo| Failure::new(panic_kind(&p), p.to_string(), case.clone());
+        ctx.update(other, &sb).map_err(pf)?;
+        ctx.update(opts, &sb).map_err(pf)?;
+        for v in seq {
+            if let Some((c, m)) = inv.get(v.as_str().unwrap_or_default()) {
+                let r = ctx.key(*c, *m, 0).map_err(pf)?;
+                let t = twin.key(*c, *m, 0).map_err(pf)?;
+                check_suggestion(run, &mut st, &r, &opts, None, 0, Some(&t.text), &|| case.clone())?;
+            }
+        }
+        return Ok(());
+    }
     if let Some(w) = case["sweep_word"].as_str() {
         let sb = Sandbox::new();
         let ctx = Ctx::new(opts, &sb).map_err(|p| Failure::new(panic_kind(&p), p.to_string(), case.clone()))?;
